@@ -190,7 +190,10 @@ impl EncodingVersion for EncodingVersion1 {
         deserializer: &mut XTypesDeserializer<'a, E, Self>,
         alignment: usize,
     ) -> XTypesResult<()> {
-        deserializer.reader.seek_padding(alignment)
+        // MAXALIGN is 8 in version 1 (the serializer pads float128 to 8 as well)
+        deserializer
+            .reader
+            .seek_padding(core::cmp::min(alignment, 8))
     }
 
     fn seek_to_pid<'a, E: EndiannessRead>(
